@@ -22,6 +22,16 @@ theorem c19_no_commit_retry_while_closing (cfg : Cfg) (env : Script) :
     (commitLoop cfg true env).2.1 = 1 ∧ (commitLoop cfg true env).1 ≤ sendMax cfg :=
   ⟨(commitLoop_closing cfg env).2, (commitLoop_closing cfg env).1⟩
 
+/-- the wait for the application to consume a pushed error ends at once when `close()` was
+    requested, consumed or not — so `Pos.errorWait` costs nothing in `c19_consumer_stop_bounded` -/
+theorem c19_error_wait_ends_when_closing (consumed : Bool) : errorWait true consumed = some 0 := by
+  simp [errorWait]
+
+/-- … and only then: an error nobody looks at keeps the routine parked (the closing flag has to
+    be part of the wait) -/
+theorem c19_error_wait_needs_the_closing_flag : errorWait false false = none := by
+  simp [errorWait]
+
 /-- the defect that was repaired (commit retried for ever once closing): for every bound there is
     an environment — a coordinator that stays unreachable — that keeps the old loop busy longer -/
 theorem c19_old_commit_loop_unbounded (cfg : Cfg) (hb : 0 < cfg.backoff) (bound : Nat) :
